@@ -44,6 +44,9 @@ var c17InFaults = []string{
 	// a complete foreign single-block message (checksum-valid, E-bit set) INSERTED between two blocks of M: it is not
 	// for this end (wrong direction / another device), so it is dropped and M goes on undisturbed
 	"stray-wrong-direction", "stray-wrong-device",
+	// a stray block numbered 0 WITHOUT the E-bit (not a valid first block: dropped) that carries the very header
+	// fields of the message that follows it, complete and in order
+	"stray-block0-same-header",
 }
 
 func c17InTotal(env *fw.Env) int64 { return int64(env.Pick(1024, 24000)) }
@@ -245,7 +248,7 @@ func c17InGen(r *rand.Rand, g int64, cfg c17Cfg) (c17InCase, []c17Step) {
 	c.K, c.LastLen = k, last
 	i := 1 + r.IntN(k)
 	switch c.Fault {
-	case "block0-start", "lone-block0":
+	case "block0-start", "lone-block0", "stray-block0-same-header":
 		i = 1
 	case "block0-mid":
 		i = 2 + r.IntN(k-2) // never the E-bit block: a block 0 with E-bit is a lone single-block message
@@ -328,6 +331,10 @@ func c17InGen(r *rand.Rand, g int64, cfg c17Cfg) (c17InCase, []c17Step) {
 			mb := b
 			mb.R = !mb.R
 			steps = append(steps, valid(mb, tag+"(wrong direction)"))
+		case "stray-block0-same-header":
+			x := b
+			x.Block, x.E = 0, false
+			steps = append(steps, valid(x, "X(block 0, E clear, same header)"), valid(b, tag))
 		case "stray-wrong-direction", "stray-wrong-device":
 			x := newMsg(1, 1+r.IntN(40), 3)[0]
 			if c.Fault == "stray-wrong-direction" {
